@@ -62,10 +62,11 @@ theorem advanceTime_fw (t : Tcb) (dt : Nat) :
 /-- both timers of a fair round: the tick flags the whole queue of the endpoint and of its closed twin (FIN numbered) -/
 theorem advanceTime_closedT (t : Tcb) (dt : Nat) (hdt : dt > t.timeouts.retransmission)
     (htw : t.timeouts.timeWait = none) :
-    ∃ t1, t.advanceTime dt = .ok (t1, .Ignore) ∧ Flagged t t1 ∧ (closedT t).advanceTime dt = .ok (closedT t1, .Ignore) := by
+    ∃ t1, t.advanceTime dt = .ok (t1, .Ignore) ∧ Flagged t t1 ∧ (closedT t).advanceTime dt = .ok (closedT t1, .Ignore) ∧
+      t1.localPort = t.localPort ∧ t1.remotePort = t.remotePort := by
   refine ⟨({ t with timeouts.retransmission := RTO,
                     outgoing.retransmit := t.outgoing.retransmit.map fun x => { x with needsTransmit := true } } : Tcb),
-    ?_, ⟨rfl, rfl, rfl, rfl, rfl, rfl, rfl, rfl, rfl⟩, ?_⟩
+    ?_, ⟨rfl, rfl, rfl, rfl, rfl, rfl, rfl, rfl, rfl⟩, ?_, rfl, rfl⟩
   · unfold advanceTime advanceRetransmission
     rw [if_pos hdt]
     dsimp only
@@ -1122,7 +1123,7 @@ theorem close_inflight_after_loss (n : Nat) (s : Sys) (hg : Good iss s) (ta tb :
     | some v =>
       have := this (by rw [h]; rfl)
       rw [hst] at this; cases this
-  obtain ⟨ta1, e1, _, e1'⟩ := advanceTime_closedT ta (RTO + 1) (by have := hc.a.tmo; omega) (notw s hg .A ta hsa hc.a.st)
+  obtain ⟨ta1, e1, _, e1', _, _⟩ := advanceTime_closedT ta (RTO + 1) (by have := hc.a.tmo; omega) (notw s hg .A ta hsa hc.a.st)
   obtain ⟨s1, r1, ta1', es1, p1, g1, h1a, h1p, fa⟩ := tick_calm s hg .A ta hsa hc.a
   have es : s.step (.tick .A (RTO + 1)) = .ok (s.setSide .A { s.side .A with tcb := some ta1 }, .tick .Ignore) := by
     simp only [Sys.step, Op.side, hsa, e1]
